@@ -561,3 +561,56 @@ func c18r8(rc *core.RC) {
 	want := []int{'\t', '\n', '\r', ' '}
 	rc.Check(fmt.Sprint(passes) == fmt.Sprint(want), key, loop.Pos(), "after the value the bytes %s are skipped and every other byte makes Valid false (all 256 values evaluated; wanted exactly tab, LF, CR, space)", core.FmtBytes(passes))
 }
+
+// ---- C18.R9 Indent copies the white space after the value ----
+
+// encoding/json's Indent preserves trailing white space. In the function that indents the source and
+// writes the result to the caller's buffer, a slice of the source has to be appended to the output
+// between the doIndent call and the Write.
+func c18r9(rc *core.RC) {
+	p := rc.P
+	n := 0
+	for _, fd := range p.Funcs("encoder") {
+		if fd.Body == nil || p.FileBase(fd.Pos()) != "indent.go" {
+			continue
+		}
+		info := p.Info(fd)
+		var indentCall, write ast.Node
+		var src types.Object
+		ast.Inspect(fd.Body, func(m ast.Node) bool {
+			c, ok := m.(*ast.CallExpr)
+			if !ok {
+				return true
+			}
+			switch name := core.CalleeName(info, c); {
+			case name == "encoder.doIndent" && len(c.Args) >= 2:
+				indentCall = c
+				src = core.ObjOf(info, c.Args[1])
+			case strings.HasSuffix(name, "bytes.Buffer.Write"):
+				write = c
+			}
+			return true
+		})
+		if indentCall == nil || write == nil || src == nil {
+			continue
+		}
+		n++
+		fn := p.FuncName(fd)
+		rc.Touch(fn)
+		copied := false
+		ast.Inspect(fd.Body, func(m ast.Node) bool {
+			c, ok := m.(*ast.CallExpr)
+			if !ok || !core.IsBuiltin(info, c, "append") || len(c.Args) != 2 || !c.Ellipsis.IsValid() {
+				return true
+			}
+			if sl, ok := core.Unparen(c.Args[1]).(*ast.SliceExpr); ok && core.ObjOf(info, sl.X) == src && c.Pos() > indentCall.Pos() && c.Pos() < write.Pos() {
+				copied = true
+			}
+			return true
+		})
+		rc.Check(copied, fn+"/trailing-white-space-copied", indentCall.Pos(), "between doIndent and the Write a slice of the source (the white space after the value) is appended to the output")
+	}
+	if n < 1 {
+		rc.Unknown("encoder/indent-and-write", token.NoPos, "no function that calls doIndent and writes to the caller's buffer found")
+	}
+}
